@@ -68,6 +68,8 @@ _CONTAINERS = {
 }
 _MAPPINGS = {"Dict": "dict", "dict": "dict", "Mapping": "Mapping", "MutableMapping": "dict"}
 _OPAQUE = {"Any", "object"}
+_BUILTIN_NAMES = {"str": str, "int": int, "float": float, "bool": bool, "None": type(None),
+                  "list": list, "tuple": tuple, "dict": dict, "bytes": bytes}
 _STR_TO_STR = {
     "replace", "strip", "lstrip", "rstrip", "lower", "upper", "format", "join",
     "title", "capitalize", "decode", "removeprefix", "removesuffix",
@@ -223,6 +225,11 @@ class TypeEnv:
                                     t = self.ann(meth.module, annot, info)
                                 elif value is not None and not isinstance(tg, ast.Tuple):
                                     t = self.expr_type(meth, value)
+                                elif value is not None and isinstance(tg, ast.Tuple):
+                                    pos = self._tuple_positions(meth, value, self.local_types(meth))
+                                    idx = tg.elts.index(el)
+                                    if pos and idx < len(pos):
+                                        t = pos[idx]
                                 if t is not None:
                                     found = join(found, t) if found else t
             if seen:
@@ -260,7 +267,13 @@ class TypeEnv:
                 et = t if i == 0 else (join(et, t) if (et and t) else None)
             return Ty(frozenset({type(v).__name__}), et)
         if isinstance(v, dict):
-            return ty("dict")
+            kt: Optional[Ty] = None
+            vt: Optional[Ty] = None
+            for i, (k, x) in enumerate(v.items()):
+                a, b = self.value_type(k), self.value_type(x)
+                kt = a if i == 0 else (join(kt, a) if (kt and a) else None)
+                vt = b if i == 0 else (join(vt, b) if (vt and b) else None)
+            return Ty(frozenset({"dict"}), vt, kt)
         return None
 
     # --------------------------------------------------------------- locals
@@ -452,6 +465,9 @@ class TypeEnv:
                             t = self.field_type(cls, e.attr)
                     elif n == "re.Pattern" and e.attr == "pattern":
                         t = ty("str")
+                    elif n in _BUILTIN_NAMES and not hasattr(_BUILTIN_NAMES[n], e.attr):
+                        # e.g. `Union[JSONPointer, str]`: `.parts` exists on the repo class only
+                        continue
                 if t is None:
                     return None
                 out = t if first else join(out, t)
@@ -517,6 +533,8 @@ class TypeEnv:
                 return ty("int")
             if fname == "float":
                 return ty("float")
+            if fname == "slice":
+                return ty("slice")
             if fname in ("bool", "isinstance", "hasattr", "callable", "any", "all"):
                 return ty("bool")
             if fname in ("list", "tuple", "sorted", "set", "frozenset", "iter", "reversed", "deque") and e.args:
@@ -540,6 +558,11 @@ class TypeEnv:
                 return None
         if isinstance(f, ast.Attribute):
             rt = self.expr_type(fn, f.value, env)
+            if rt is not None and rt.names <= {"dict", "Mapping"} and f.attr == "get":
+                dflt = self.expr_type(fn, e.args[1], env) if len(e.args) > 1 else ty("None")
+                if rt.elem is not None and dflt is not None:
+                    return join(rt.elem, dflt)
+                return None
             if rt is not None and rt.names <= {"str", "bytes"}:
                 if f.attr in _STR_TO_STR:
                     return ty("str")
